@@ -390,6 +390,7 @@ func (e2eFamily) Exec(id int, raw json.RawMessage) Case {
 				panic("send on unknown connection " + o.C)
 			}
 			var buf []byte
+			lastAckMid := 0
 			switch o.P {
 			case "pub":
 				nPub++
@@ -423,6 +424,7 @@ func (e2eFamily) Exec(id int, raw json.RawMessage) Case {
 					ref = fmt.Sprintf("(RefFor %s %s %s %s)", cqStr(o.Ref.T), cqStr(o.Ref.P), cqZ(int64(o.Ref.Q)), cqNat(o.Ref.I))
 				}
 				buf = encAck(typ, mid)
+				lastAckMid = mid
 				opT = fmt.Sprintf("EAck %s %s %s %s", cqStr(o.C), cqZ(int64(typ)), ref, cqZ(clk))
 			case "ping":
 				buf = []byte{0xc0, 0}
@@ -436,9 +438,19 @@ func (e2eFamily) Exec(id int, raw json.RawMessage) Case {
 			default:
 				panic("unknown packet kind " + o.P)
 			}
+			from, fails0, rel0 := k.conn.outCount(), cl.storeFailures(), atomic.LoadInt64(&node0(cl, k).q.relJob)
 			k.conn.Feed(buf)
 			k.conn.WaitIdle(cl.wait())
 			syncMsg = settle(k)
+			// the acknowledgement is written by the worker after Distribute has returned: when nothing
+			// failed to store it must come, so wait for it rather than for a quiet period
+			if cl.storeFailures() == fails0 {
+				if o.P == "pub" && o.Q == 1 {
+					k.conn.WaitAckFrom(from, 4, int32(o.Mid), cl.wait())
+				} else if o.P == "pubrel" && atomic.LoadInt64(&node0(cl, k).q.relJob) > rel0 {
+					k.conn.WaitAckFrom(from, 7, int32(lastAckMid), cl.wait())
+				}
+			}
 			withDl = o.P != "disc" && o.P != "connect"
 		case "raw":
 			// arbitrary bytes on an established connection: what the broker's decoder makes of them is
@@ -446,6 +458,7 @@ func (e2eFamily) Exec(id int, raw json.RawMessage) Case {
 			// outside /repo); the model is told the packet it yields, or that it fails
 			bytesIn := unhex(o.Hex)
 			pkt, complete, derr := simulateDecode(bytesIn)
+			from, fails0, rel0 := k.conn.outCount(), cl.storeFailures(), atomic.LoadInt64(&node0(cl, k).q.relJob)
 			k.conn.Feed(bytesIn)
 			if !complete {
 				// the broker blocks reading the body: the read deadline passes (the library ignores that
@@ -455,6 +468,18 @@ func (e2eFamily) Exec(id int, raw json.RawMessage) Case {
 			}
 			k.conn.WaitIdle(cl.wait())
 			syncMsg = settle(k)
+			if derr == nil && cl.storeFailures() == fails0 {
+				switch p := pkt.(type) {
+				case *packet.Publish:
+					if p.Header != nil && p.Header.Qos == 1 {
+						k.conn.WaitAckFrom(from, 4, p.MessageId, cl.wait())
+					}
+				case *packet.PubRel:
+					if atomic.LoadInt64(&node0(cl, k).q.relJob) > rel0 {
+						k.conn.WaitAckFrom(from, 7, p.MessageId, cl.wait())
+					}
+				}
+			}
 			withDl = true
 			opT = rawOpTerm(o.C, pkt, derr, clk)
 			tags["raw"] = true
@@ -597,3 +622,5 @@ func (e2eFamily) Exec(id int, raw json.RawMessage) Case {
 	sort.Strings(c.Tags)
 	return c
 }
+
+func node0(cl *e2eCluster, k *e2eClient) *e2eNode { return cl.nodes[k.node] }
